@@ -305,25 +305,33 @@ theorem zipLoad_good_dedup (z : Zip) (placed : Placed) (hg : Good z placed) (hx 
 
 /-! ### selecting by picklist; standalone manifests and path lists -/
 
-def pickKey (p : MName × Sig) : Nat × Nat := (p.2.name, md5short p.2.md5)
+def pickKey (full : Bool) (p : MName × Sig) : Nat × Nat := sigKey full p.2
 
-theorem zipSelectLoad_good (z : Zip) (placed : Placed) (hg : Good z placed) (hx : GoodX z) (picks : List (Nat × Nat)) :
-    zipSelectLoad z picks = .ok (dedup ((placed.filter fun p => picks.contains (pickKey p)).map (·.2))) := by
-  have hrows : (placed.map rowOf).filter (fun r => picks.contains (r.name, r.md5short)) =
-      (placed.filter fun p => picks.contains (pickKey p)).map rowOf := by
+theorem rowKey_rowOf (full : Bool) (p : MName × Sig) : rowKey full (rowOf p) = pickKey full p := by
+  cases full <;> rfl
+
+theorem rowKey_relocated (full : Bool) (q : MName × Sig) (k : Nat) :
+    rowKey full { rowOf q with loc := some (.other k) } = pickKey full q := by
+  cases full <;> rfl
+
+theorem zipSelectLoad_good (full : Bool) (z : Zip) (placed : Placed) (hg : Good z placed) (hx : GoodX z)
+    (picks : List (Nat × Nat)) :
+    zipSelectLoad full z picks = .ok (dedup ((placed.filter fun p => picks.contains (pickKey full p)).map (·.2))) := by
+  have hrows : (placed.map rowOf).filter (fun r => picks.contains (rowKey full r)) =
+      (placed.filter fun p => picks.contains (pickKey full p)).map rowOf := by
     rw [List.filter_map]
-    rfl
+    congr 1
   simp only [zipSelectLoad, hg.manifest, hrows]
   exact loadSub_dedup z placed hg hx _ (fun p hp => (List.mem_filter.1 hp).1)
 
 /-- a standalone manifest listing the part `P` of ONE zip collection (rows relocated to the collection's
     path `k`), under the exclusion C12.3: no signature outside `P` shares (name, md5[:8]) with one inside.
     Reloading through the manifest yields exactly the listed signatures (in the zip's order, each once). -/
-theorem standalone_zip_part (z : Zip) (placed : Placed) (hg : Good z placed) (hx : GoodX z) (k : Nat)
+theorem standalone_zip_part (full : Bool) (z : Zip) (placed : Placed) (hg : Good z placed) (hx : GoodX z) (k : Nat)
     (P : MName × Sig → Bool)
-    (hexcl : ∀ p ∈ placed, ∀ q ∈ placed, P q = true → pickKey q = pickKey p → P p = true)
+    (hexcl : ∀ p ∈ placed, ∀ q ∈ placed, P q = true → pickKey full q = pickKey full p → P p = true)
     (hne : placed.filter P ≠ []) :
-    standaloneLoadFs [(k, z)] (relocate k ((placed.filter P).map rowOf)) =
+    standaloneLoadFs full [(k, z)] (relocate k ((placed.filter P).map rowOf)) =
       .ok (dedup ((placed.filter P).map (·.2))) := by
   have hlocs : locations (relocate k ((placed.filter P).map rowOf)) = [some (.other k)] := by
     cases hf : placed.filter P with
@@ -341,28 +349,29 @@ theorem standalone_zip_part (z : Zip) (placed : Placed) (hg : Good z placed) (hx
         obtain ⟨q, _, e⟩ := hx
         simp [← e]
       simpa [Function.comp] using this t
-  have hpicks : ∀ p ∈ placed, (picklistOf (relocate k ((placed.filter P).map rowOf))).contains (pickKey p) = P p := by
+  have hpicks : ∀ p ∈ placed, (picklistOf full (relocate k ((placed.filter P).map rowOf))).contains (pickKey full p) = P p := by
     intro p hp
-    have hmem : pickKey p ∈ picklistOf (relocate k ((placed.filter P).map rowOf)) ↔ P p = true := by
-      simp only [picklistOf, relocate, List.map_map, List.mem_map, Function.comp, List.mem_filter]
+    have hmem : pickKey full p ∈ picklistOf full (relocate k ((placed.filter P).map rowOf)) ↔ P p = true := by
+      simp only [picklistOf, relocate, List.map_map, List.mem_map, Function.comp, List.mem_filter,
+        rowKey_relocated]
       constructor
       · rintro ⟨q, ⟨hq, hPq⟩, e⟩
-        exact hexcl p hp q hq hPq (by simpa [pickKey, rowOf, mkRow] using e)
+        exact hexcl p hp q hq hPq e
       · intro hPp
-        exact ⟨p, ⟨hp, hPp⟩, by simp [pickKey, rowOf, mkRow]⟩
+        exact ⟨p, ⟨hp, hPp⟩, rfl⟩
     cases hP : P p with
     | true => simpa using hmem.2 hP
     | false =>
-      have : ¬ pickKey p ∈ picklistOf (relocate k ((placed.filter P).map rowOf)) := by
+      have : ¬ pickKey full p ∈ picklistOf full (relocate k ((placed.filter P).map rowOf)) := by
         intro h; rw [hmem.1 h] at hP; cases hP
       simpa using this
-  have hfilter : (placed.filter fun p => (picklistOf (relocate k ((placed.filter P).map rowOf))).contains (pickKey p))
+  have hfilter : (placed.filter fun p => (picklistOf full (relocate k ((placed.filter P).map rowOf))).contains (pickKey full p))
       = placed.filter P := by
     apply List.filter_congr
     intro p hp
     exact hpicks p hp
   simp only [standaloneLoadFs, hlocs, List.map_cons, List.map_nil, fsLookup, if_true,
-    zipSelectLoad_good z placed hg hx, hfilter, concatRes, List.append_nil]
+    zipSelectLoad_good full z placed hg hx, hfilter, concatRes, List.append_nil]
 
 /-- a path list naming collections: the concatenation of their generic loads -/
 theorem pathlist_single (z : Zip) (k : Nat) (out : List Sig) (h : zipLoad z = .ok out) :
